@@ -8,12 +8,12 @@ enum { O_CTX_REG = 1, O_CTX_DEREG, O_FINALIZE, O_DISPATCH, O_QUIT, O_SET_TICK,
        O_TELL, O_PUB, O_BCAST, O_PILL, O_SUB, O_UNSUB,
        O_SRC_REG, O_SRC_DEREG,
        O_BECOME, O_UNBECOME, O_BATCH_SIZE, O_BATCH_TMO, O_BUCKET, O_UNSTASH,
-       O_ARM, O_READY, O_ADVANCE, O_INJECT, O_RELEASE, O_CTXCALL, O_RAISE, O_TOUCH, O_ENDCHILD, O_MAX };
+       O_ARM, O_READY, O_ADVANCE, O_INJECT, O_RELEASE, O_CTXCALL, O_RAISE, O_TOUCH, O_ENDCHILD, O_HANGUP, O_MAX };
 static void audit_srclen(int s, const char *when);
 enum { A_NONE, A_STOP, A_DEREG, A_PAUSE, A_START, A_RESUME, A_TELL, A_PUB, A_QUIT, A_SUB, A_UNSUB, A_STASH, A_UNSTASH, A_BECOME, A_UNBECOME,
-       A_RETAIN, A_ERRNO, A_CTXCALL, A_PILL, A_BCAST, A_TICK, A_MAX };
+       A_RETAIN, A_ERRNO, A_CTXCALL, A_PILL, A_BCAST, A_TICK, A_SRCDEREG, A_MAX };
 static const char *AN[] = { "none", "stop", "deregister", "pause", "start", "resume", "tell", "publish", "quit", "subscribe", "unsubscribe", "stash", "unstash", "become", "unbecome",
-                            "retain-event", "set-errno", "ctx-call", "poisonpill", "broadcast", "toggle-tick" };
+                            "retain-event", "set-errno", "ctx-call", "poisonpill", "broadcast", "toggle-tick", "deregister-the-event's-source" };
 static const m_mod_flags MFLAGS[] = { 0, M_MOD_ALLOW_REPLACE, M_MOD_PERSIST, M_MOD_DENY_CTX, M_MOD_DENY_PUB, M_MOD_DENY_SUB, M_MOD_NAME_DUP, M_MOD_NAME_AUTOFREE | M_MOD_USERDATA_AUTOFREE };
 static const char *MFLAGN[] = { "-", "ALLOW_REPLACE", "PERSIST", "DENY_CTX", "DENY_PUB", "DENY_SUB", "NAME_DUP", "NAME_AUTOFREE|USERDATA_AUTOFREE" };
 static const int ERRNOS[] = { EINTR, EAGAIN, ENOENT, EBADF };
@@ -92,6 +92,13 @@ static void run_armed(int s, int kind) {
             }
             if (rc == 0 && r >= 0) { MD[s].stash[MD[s].nst++] = r; EV[r].refs++; MD[s].life |= 8; }
         }
+        break; }
+    case A_SRCDEREG: {      /* the handler deregisters the source its (first) event came from; arg 1: and then stops its own module */
+        if (kind != CB_EVT || !ncur || cur_evrec[0] < 0) break;
+        evrec_t *r = &EV[cur_evrec[0]]; int k = r->kind == 1 ? K_FD : r->kind == 2 ? K_TMR : -1;
+        int dupfd = 0; for (int j = 0; j < MAXSRC; j++) if (MD[s].src[j].present && MD[s].src[j].kind == K_FD && MD[s].src[j].key == r->key && (MD[s].src[j].flags & 4)) dupfd = 1;
+        if (k >= 0 && !(k == K_FD && dupfd)) do_api((op_t){O_SRC_DEREG, s, k * 16 + r->key});      /* (how to name a DUP descriptor source is unspecified) */
+        if (arg && MD[s].present) do_api((op_t){O_STOP, s});
         break; }
     case A_RETAIN: {
         if (kind != CB_EVT || !ncur) break;
